@@ -63,7 +63,7 @@ func genC05Maps(level int) []*MapScen {
 			}
 		}
 		if level >= 1 && c != CMap {
-			// four racers
+			// four racers (thorough)
 			for _, a := range []MIn{opLoS, opLoC, opInc} {
 				for _, init := range [][]int{{0, 0}, {1, 0}} {
 					add(&MapScen{Rel: RelSS, NKeys: 2, Init: init, Table: TPlain, Bound: 3, Threads: [][]MIn{{on(a, 0)}, {on(a, 0)}, {on(a, 0)}, {on(a, 0)}}})
@@ -137,6 +137,9 @@ func genC07Maps(level int) []*MapScen {
 		add(&MapScen{Rel: RelSD, NKeys: 2, Init: []int{0, 1}, Table: TGrowArmed, Threads: [][]MIn{{opRange}, {on(opStore, 0)}}, ExpectGrow: true})
 		add(&MapScen{Rel: RelLate, NKeys: 2, Init: []int{0, 1}, Table: TGrowArmed, Threads: [][]MIn{{opRange}, {on(opStore, 0)}}, ExpectGrow: true})
 		add(&MapScen{Rel: RelDD, NKeys: 2, Init: []int{1, 1}, Table: TShrinkArmed, Threads: [][]MIn{{opRange}, {on(opDelete, 0)}}, ExpectShrink: true})
+		// the grown chain has an overflow bucket (its keys must still be visited by a traversal of the old table)
+		add(&MapScen{Rel: RelSD, NKeys: 2, Init: []int{0, 1}, Table: TGrowArmed, Chain: 2, Threads: [][]MIn{{opRange}, {on(opStore, 0)}}, ExpectGrow: true})
+		add(&MapScen{Rel: RelSD, NKeys: 2, Init: []int{0, 1}, Table: TGrowArmed, Chain: 2, FillFirst: true, Threads: [][]MIn{{opRange}, {on(opStore, 0)}}, ExpectGrow: true})
 		// keys (and bystanders) that change their bucket when the table is replaced
 		add(&MapScen{Rel: RelSplit, NKeys: 2, Init: []int{0, 1}, Table: TGrowArmed, Threads: [][]MIn{{opRange}, {on(opStore, 0)}}, ExpectGrow: true})
 		if level >= 1 {
@@ -322,6 +325,7 @@ func genC16Maps(level int) []*MapScen {
 				add(&MapScen{Rel: RelSD, NKeys: 2, Init: []int{0, 1}, Table: TFullChain, Threads: [][]MIn{{on(rd, 0)}, {on(opStore, 0)}}})
 			}
 			add(&MapScen{Rel: RelSD, NKeys: 2, Init: []int{0, 1}, Table: TGrowArmed, Threads: [][]MIn{{on(rd, 1)}, {on(opStore, 0)}}, ExpectGrow: true})
+			add(&MapScen{Rel: RelSD, NKeys: 2, Init: []int{0, 1}, Table: TGrowArmed, Chain: 2, FillFirst: true, Threads: [][]MIn{{on(rd, 1)}, {on(opStore, 0)}}, ExpectGrow: true})
 			add(&MapScen{Rel: RelLate, NKeys: 2, Init: []int{0, 1}, Table: TGrowArmed, Threads: [][]MIn{{on(rd, 1)}, {on(opStore, 0)}}, ExpectGrow: true})
 			add(&MapScen{Rel: RelDD, NKeys: 2, Init: []int{1, 1}, Table: TShrinkArmed, Threads: [][]MIn{{on(rd, 1)}, {on(opDelete, 0)}}, ExpectShrink: true})
 			if rd.Op == MLoad {
